@@ -1,6 +1,7 @@
 // Instantiation driver: names every function-template instantiation the contracts quantify over, so that
 // clang's AST contains their bodies.  Compiled -fsyntax-only (never linked or run) with exactly the flags
 // and macros of the configuration under extraction; overload resolution and instantiation are the compiler's.
+#include <cstdlib>   // Aligned_allocator.hpp uses std::aligned_alloc (C++17 branch) without including <cstdlib> itself: a compile matter (C19), worked around here
 #include <avel/Avel.hpp>
 #include <avel/Aligned_allocator.hpp>
 #include <avel/Cache.hpp>
